@@ -6,6 +6,7 @@ package main
 
 import (
 	"fmt"
+	"sort"
 	"go/ast"
 	"go/constant"
 	"go/token"
@@ -47,6 +48,34 @@ func (ex *Exec) assumeSpec(e ast.Expr, info *types.Info, env *SpecEnv, pc *Term)
 	t := ex.evalSpecBool(e, info, &e2, pc)
 	env.freshRefs = append(env.freshRefs, e2.freshRefs...)
 	return t
+}
+
+// proveSplit evaluates a clause that is to be proved and splits it along its
+// top-level structure  A && B,  implies(G, A && B)  into separate goals, so that
+// every obligation stays small.
+func (ex *Exec) proveSplit(e ast.Expr, info *types.Info, env *SpecEnv, pc *Term) []*Term {
+	switch x := e.(type) {
+	case *ast.ParenExpr:
+		return ex.proveSplit(x.X, info, env, pc)
+	case *ast.BinaryExpr:
+		if x.Op == token.LAND {
+			return append(ex.proveSplit(x.X, info, env, pc), ex.proveSplit(x.Y, info, env, pc)...)
+		}
+	case *ast.CallExpr:
+		if id := calleeIdent(x.Fun); id != nil && id.Name == "implies" && len(x.Args) == 2 {
+			if _, isB := info.Uses[id].(*types.Func); isB {
+				e2 := *env
+				e2.pol = -1
+				g := ex.evalSpecBool(x.Args[0], info, &e2, pc)
+				var out []*Term
+				for _, t := range ex.proveSplit(x.Args[1], info, env, pc) {
+					out = append(out, Implies(g, t))
+				}
+				return out
+			}
+		}
+	}
+	return []*Term{ex.proveSpec(e, info, env, pc)}
 }
 
 func (ex *Exec) evalSpecBool(e ast.Expr, info *types.Info, env *SpecEnv, pc *Term) *Term {
@@ -398,7 +427,13 @@ func (ex *Exec) specAddr(e ast.Expr, info *types.Info, env *SpecEnv, pc *Term) V
 		if !ok {
 			break
 		}
-		base := ex.evalSpec(x.X, info, env, pc)
+		var base Value
+		if _, isPtr := sel.Recv().Underlying().(*types.Pointer); isPtr {
+			base = ex.evalSpec(x.X, info, env, pc)
+		} else {
+			// the operand is an addressable struct value: take its address
+			base = ex.specAddr(x.X, info, env, pc)
+		}
 		t := sel.Recv()
 		idx := sel.Index()
 		cur := base
@@ -487,7 +522,23 @@ func (ex *Exec) specCall(call *ast.CallExpr, info *types.Info, env *SpecEnv, pc 
 		panic("contract: unsupported call " + exprString(call))
 	}
 	obj := info.Uses[id]
-	arg := func(i int) Value { return ex.evalSpec(call.Args[i], info, env, pc) }
+	arg := func(i int) Value {
+		if tv, ok := info.Types[call.Args[i]]; ok && tv.IsNil() {
+			// nil takes the type of the parameter it is passed to
+			if fo, ok := obj.(*types.Func); ok {
+				sig := fo.Type().(*types.Signature)
+				if i < sig.Params().Len() {
+					pt := sig.Params().At(i).Type()
+					if !types.IsInterface(pt) || true {
+						if _, isTP := pt.(*types.TypeParam); !isTP {
+							return ZeroV(pt)
+						}
+					}
+				}
+			}
+		}
+		return ex.evalSpec(call.Args[i], info, env, pc)
+	}
 	if _, ok := obj.(*types.Builtin); ok {
 		switch id.Name {
 		case "len", "cap":
@@ -536,6 +587,9 @@ func (ex *Exec) specCall(call *ast.CallExpr, info *types.Info, env *SpecEnv, pc 
 		panic("contract: unsupported method call " + full)
 	}
 	// spec builtins of the contract prelude
+	if v, ok := ex.cryptoSpec(id.Name, arg, env); ok {
+		return v
+	}
 	switch id.Name {
 	case "old":
 		if env.old == nil {
@@ -642,12 +696,13 @@ func (ex *Exec) specCall(call *ast.CallExpr, info *types.Info, env *SpecEnv, pc 
 		i := SignExtTo64(arg(0).(IntV).T, info.Types[call.Args[0]].Type)
 		return IntV{SelectA(env.st.get("ghost|wire.bytes", SByteArr), i)}
 	case "nsenton", "nrecvon":
+		// number of sends / receives on this channel
 		k := "send"
 		if id.Name == "nrecvon" {
 			k = "recv"
 		}
 		ch := arg(0).(ChanV)
-		return IntV{Select(env.st.get("ghost|"+k+".cnt|"+typeKey(chanElem(info.Types[call.Args[0]].Type)), SArr(SRef, SBV(64))), ch.Ref)}
+		return IntV{Select(env.st.get(chanLogKey(k, chanElem(info.Types[call.Args[0]].Type))+"cnt", SArr(SRef, SBV(64))), ch.Ref)}
 	case "within":
 		// within(sub, whole): sub is a window of whole's backing array inside whole
 		a, b := arg(0).(SliceV), arg(1).(SliceV)
@@ -659,34 +714,32 @@ func (ex *Exec) specCall(call *ast.CallExpr, info *types.Info, env *SpecEnv, pc 
 		a, b := arg(0).(SliceV), arg(1).(SliceV)
 		return IntV{BVSub(a.Off, b.Off)}
 	case "senton", "recvon":
+		// the i-th send / receive in the log of ch's element type was on ch
 		k := "send"
 		if id.Name == "recvon" {
 			k = "recv"
 		}
 		i := SignExtTo64(arg(0).(IntV).T, info.Types[call.Args[0]].Type)
 		ch := arg(1).(ChanV)
-		tid := ex.typeID(chanElem(info.Types[call.Args[1]].Type))
-		return BoolV{And(Eq(Select(env.st.get("ghost|"+k+".ch", SArr(SBV(64), SRef)), i), ch.Ref),
-			Eq(Select(env.st.get("ghost|"+k+".ty", SArr(SBV(64), SBV(16))), i), tid))}
+		return BoolV{Eq(Select(env.st.get(chanLogKey(k, chanElem(info.Types[call.Args[1]].Type))+"ch", SArr(SBV(64), SRef)), i), ch.Ref)}
 	case "wirelen":
 		return IntV{env.st.get("ghost|wire.len", SBV(64))}
 	case "nsent", "nrecv":
+		// nsent[T](): number of sends on channels with element type T (one log per element type)
 		k := "send"
 		if id.Name == "nrecv" {
 			k = "recv"
 		}
-		return IntV{env.st.get("ghost|"+k+".n", SBV(64))}
-	case "sentch", "recvch", "sentval", "recvval":
+		t := info.Instances[id].TypeArgs.At(0)
+		return IntV{env.st.get(chanLogKey(k, t)+"n", SBV(64))}
+	case "sentval", "recvval":
 		k := "send"
-		if strings.HasPrefix(id.Name, "recv") {
+		if id.Name == "recvval" {
 			k = "recv"
 		}
 		i := SignExtTo64(arg(0).(IntV).T, info.Types[call.Args[0]].Type)
-		if strings.HasSuffix(id.Name, "ch") {
-			return ChanV{Select(env.st.get("ghost|"+k+".ch", SArr(SBV(64), SRef)), i)}
-		}
 		t := info.Instances[id].TypeArgs.At(0)
-		return PtrV{Kind: PHeap, Ref: Select(env.st.get("ghost|"+k+".val", SArr(SBV(64), SRef)), i), Root: t.Underlying().(*types.Pointer).Elem()}
+		return PtrV{Kind: PHeap, Ref: Select(env.st.get(chanLogKey(k, t)+"val", SArr(SBV(64), SRef)), i), Root: t.Underlying().(*types.Pointer).Elem()}
 	case "nevents":
 		name := constant.StringVal(info.Types[call.Args[0]].Value)
 		return IntV{env.st.get("ghost|ev."+name+".n", SBV(64))}
@@ -967,9 +1020,10 @@ func (fr *Frame) contractCall(ct *Contract, fn *ssa.Function, args []Value, pc *
 	for i := 0; i < sig.Results().Len(); i++ {
 		rt := sig.Results().At(i).Type()
 		v := FreshV(rt, "res."+ct.Name)
-		if _, isPtr := v.(PtrV); !isPtr {
-			ex.wellFormed(st, v, pc)
-		}
+		// range facts only; allocated-or-fresh is decided after the ensures clauses
+		ex.noAlloc++
+		ex.wellFormed(st, v, pc)
+		ex.noAlloc--
 		resVals = append(resVals, v)
 	}
 	bindStubResults(ct, info, env, resVals)
@@ -998,8 +1052,19 @@ func (fr *Frame) contractCall(ct *Contract, fn *ssa.Function, args []Value, pc *
 	al := st.get("alloc", SArr(SRef, SBool))
 	var refs []*Term
 	for _, v := range resVals {
-		if p, ok := v.(PtrV); ok && p.Kind == PHeap {
-			refs = append(refs, p.Ref)
+		switch x := v.(type) {
+		case PtrV:
+			if x.Kind == PHeap {
+				refs = append(refs, x.Ref)
+			}
+		case SliceV:
+			if x.St == StDyn {
+				refs = append(refs, x.ID)
+			}
+		case ChanV:
+			refs = append(refs, x.Ref)
+		case MapV:
+			refs = append(refs, x.Ref)
 		}
 	}
 	refs = append(refs, ex.pendingPtrs...)
@@ -1132,11 +1197,27 @@ func (ex *Exec) havocLocation(e ast.Expr, info *types.Info, pre *SpecEnv, st *St
 				}
 				return
 			case "wire":
+				// the wire only grows: the bytes already written stay
 				wl := st.get("ghost|wire.len", SBV(64))
 				nl := Fresh("mod.wire.len", SBV(64))
 				ex.assume(pc, And(BVSle(wl, nl), BVSlt(nl, BV(1<<61, 64))))
 				st.set("ghost|wire.len", nl)
-				st.set("ghost|wire.bytes", Fresh("mod.wire.bytes", SByteArr))
+				ob := st.get("ghost|wire.bytes", SByteArr)
+				nb := Fresh("mod.wire.bytes", SByteArr)
+				k := BoundVar("b.w", SBV(64))
+				q := Quant("forall", k, Implies(And(BVSle(BV(0, 64), k), BVSlt(k, wl)), Eq(Select(nb, k), SelectA(ob, k))))
+				instQuant[q.id] = true
+				ex.assume(pc, q)
+				st.set("ghost|wire.bytes", nb)
+				st.set("ghost|wire.calls", Fresh("mod.wire.calls", SBV(64)))
+				return
+			case "chanlog":
+				// chanlog[T](): the send and receive logs of channels with element type T
+				t := info.Instances[id].TypeArgs.At(0)
+				ex.havocGhostLog(st, []string{chanLogKey("send", t), chanLogKey("recv", t)}, pc)
+				return
+			case "cryptolog":
+				ex.havocGhostLog(st, []string{"ghost|seal.", "ghost|open.", "ghost|aead.", "ghost|hkdf.", "ghost|hash.", "ghost|hmac."}, pc)
 				return
 			case "ghost":
 				name := constant.StringVal(info.Types[x.Args[0]].Value)
@@ -1144,12 +1225,22 @@ func (ex *Exec) havocLocation(e ast.Expr, info *types.Info, pre *SpecEnv, st *St
 				return
 			case "events":
 				name := constant.StringVal(info.Types[x.Args[0]].Value)
-				for _, suffix := range []string{".n", ".ref", ".ch", ".val"} {
-					key := "ghost|" + name + suffix
-					if s, ok := heapSorts[key]; ok {
-						st.set(key, Fresh("mod."+key, s))
+				if name == "*" {
+					seen := map[string]bool{}
+					var ps []string
+					for k := range heapSorts {
+						if strings.HasPrefix(k, "ghost|ev.") {
+							if i := strings.LastIndex(k, "."); i > 0 && !seen[k[:i+1]] {
+								seen[k[:i+1]] = true
+								ps = append(ps, k[:i+1])
+							}
+						}
 					}
+					sort.Strings(ps)
+					ex.havocGhostLog(st, ps, pc)
+					return
 				}
+				ex.havocGhostLog(st, []string{"ghost|ev." + name + "."}, pc)
 				return
 			case "clock":
 				old := st.get("ghost|clock", SBV(64))
@@ -1238,4 +1329,81 @@ func (ex *Exec) exclusiveCall(fr *Frame, ct *Contract, site *ssa.Call, pc *Term,
 	}
 	ex.oblige("lock", "exclusive "+contractName(ct)+" on "+what, pos, pc, Bool(okStatic),
 		contractName(ct)+" needs exclusive access to its receiver: the object must be owned by this goroutine role ("+role+")")
+}
+
+// havocGhostLog: an append-only ghost log (counter <prefix>n plus arrays indexed
+// by event number, or per-object ghost arrays) is changed by a callee: the
+// counter may grow, entries below the old counter stay.
+// ghostSchema: components of the known ghost logs (so that a havoc covers
+// components that have not been touched yet).
+func ghostSchema(prefix string) map[string]string {
+	ev := SArr(SBV(64), SFP)
+	switch {
+	case prefix == "ghost|seal.":
+		return map[string]string{"n": SBV(64), "key": ev, "nonce": ev, "pt": ev, "ad": ev, "out": SArr(SBV(64), SRef)}
+	case prefix == "ghost|open.":
+		return map[string]string{"n": SBV(64), "key": ev, "nonce": ev, "ct": ev, "ad": ev, "ok": SArr(SBV(64), SBool)}
+	case prefix == "ghost|aead.":
+		return map[string]string{"key": SArr(SRef, SFP)}
+	case prefix == "ghost|hkdf.":
+		return map[string]string{"secret": SArr(SRef, SFP), "salt": SArr(SRef, SFP), "info": SArr(SRef, SFP), "pos": SArr(SRef, SBV(64))}
+	case prefix == "ghost|hash.":
+		return map[string]string{"len": SArr(SRef, SBV(64))}
+	case prefix == "ghost|hmac.":
+		return map[string]string{"key": SArr(SRef, SFP)}
+	case strings.HasPrefix(prefix, "ghost|send|"), strings.HasPrefix(prefix, "ghost|recv|"):
+		return map[string]string{"n": SBV(64), "ch": SArr(SBV(64), SRef), "val": SArr(SBV(64), SRef), "cnt": SArr(SRef, SBV(64))}
+	case strings.HasPrefix(prefix, "ghost|ev."):
+		return map[string]string{"n": SBV(64), "ref": SArr(SBV(64), SRef)}
+	}
+	return nil
+}
+
+func (ex *Exec) havocGhostLog(st *State, prefixes []string, pc *Term) {
+	for _, p := range prefixes {
+		for comp, srt := range ghostSchema(p) {
+			if _, ok := heapSorts[p+comp]; !ok {
+				heapSorts[p+comp] = srt
+			}
+		}
+	}
+	var keys []string
+	for k := range heapSorts {
+		for _, p := range prefixes {
+			if strings.HasPrefix(k, p) {
+				keys = append(keys, k)
+			}
+		}
+	}
+	sort.Strings(keys)
+	for _, p := range prefixes {
+		nKey := p + "n"
+		oldN := st.get(nKey, SBV(64))
+		for _, k := range keys {
+			if !strings.HasPrefix(k, p) {
+				continue
+			}
+			srt := heapSorts[k]
+			old := st.get(k, srt)
+			nv := Fresh("mod."+k, srt)
+			switch {
+			case k == nKey:
+				// event counters are never negative and do not overflow
+				ex.assume(pc, And(BVSle(BV(0, 64), old), BVSle(old, nv), BVSlt(nv, BV(1<<62, 64))))
+			case strings.HasPrefix(srt, "(Array (_ BitVec 64)"):
+				i := BoundVar("b.lg", SBV(64))
+				q := Quant("forall", i, Implies(And(BVSle(BV(0, 64), i), BVSlt(i, oldN)), Eq(Select(nv, i), Select(old, i))))
+				instQuant[q.id] = true
+				ex.assume(pc, q)
+			case strings.HasPrefix(srt, "(Array (_ BitVec 32)"):
+				// per-object ghost state: objects that existed keep theirs
+				al := st.get("alloc", SArr(SRef, SBool))
+				r := BoundVar("b.lo", SRef)
+				q := Quant("forall", r, Implies(Select(al, r), Eq(Select(nv, r), Select(old, r))))
+				instQuant[q.id] = true
+				ex.assume(pc, q)
+			}
+			st.set(k, nv)
+		}
+	}
 }
